@@ -317,7 +317,7 @@ func ruleC07Extra(prog *Program, rep *Report) {
 	rulePoolPut(prog, rep)       // an instance put back before its last use is reset by the next caller in the middle of this call
 	ruleCursorAdvance(prog, rep) // the Reuse option recycles maps through a cursor
 	ruleReuseGuard(prog, rep)
-	ruleCacheRead(prog, rep)     // a plan looked up in the wrong cache makes an encoding depend on what was encoded before
+	ruleCacheRead(prog, rep) // a plan looked up in the wrong cache makes an encoding depend on what was encoded before
 }
 
 // ruleRestore: a field saved to a local, overwritten and restored later must
